@@ -520,7 +520,11 @@ func Render(p *Program, pkg, modPath string) string {
 	case "generic":
 		// handled below: the directive sits in a generic helper
 		shadow(&b)
-		fmt.Fprintf(&b, "\tout.Err = gen_%s[int, string](in, 7, %s)\n", p.ID, genericArgs(p))
+		if ga := genericArgs(p); ga != "" {
+			fmt.Fprintf(&b, "\tout.Err = gen_%s[int, string](in, 7, %s)\n", p.ID, ga)
+		} else {
+			fmt.Fprintf(&b, "\tout.Err = gen_%s[int, string](in, 7)\n", p.ID)
+		}
 	case "method":
 		shadow(&b)
 		fmt.Fprintf(&b, "\tout.Err = (&recv_%s{in: in}).do(%s)\n", p.ID, genericArgs(p))
